@@ -63,9 +63,14 @@ for _pid, _what, _sec in [
 CHECKS["C11"] = dict(category="exploration", text="Correspondence of the extracted Coq CFG model (Model/Cfg.v) with the working tree and a shadow-set oracle over random histories of every MutableSet operation; adjacency views of the CFG and of the nodes after every step.",
                      design="5 C11", technique="differential execution of extracted Coq model + shadow-set oracle (Coq refinement proofs in progress)",
                      note="networkx.MultiDiGraph modelled by its abstract content. " + _INTERIM % "C11")
-CHECKS["C19"] = dict(category="exploration", text="Correspondence of the extracted Coq byte-store model (Model/ByteStore.v) with the working tree plus the property's sentences as direct oracle after every size/initialized_size/contents assignment, block views at every boundary, save/load.",
-                     design="5 C19", technique="differential execution of extracted Coq model + direct oracle (Coq invariant proofs in progress)",
-                     note="bytearray semantics are CPython's. " + _INTERIM % "C19")
+CHECKS["C19"] = dict(
+    text="Theorems over Model/ByteStore.v (constructor check, size/initialized_size setters as coded, block views): initialized_size = stored byte count; the constructor "
+         "rejects init > size and establishes the invariant; initialized_size pads with zeros or truncates; shrinking size truncates; stored bytes <= size after ANY sequence of "
+         "assignments (induction over histories) and the store always reloads to itself; block address/contents/contains_* characterised. Correspondence: the same constructor "
+         "arguments and assignment histories on the working tree and the extracted model, every observation compared; direct oracle = the property's sentences; real save/load.",
+    design="5 C19", technique="Coq proof (invariant by induction over assignment histories) + differential correspondence + direct oracle",
+    note="Domain: non-negative sizes/offsets, initialized_size assignments within the declared size (the property's 'such assignments'); direct assignment of a longer `contents` is outside the property. "
+         "bytearray semantics and the protobuf runtime are CPython's/protobuf's.")
 
 NOT_YET = {}
 
